@@ -152,14 +152,14 @@ def gen(ctx):
         add([v], pp, 'plain')
     pairs = list(itertools.product(pv, repeat=2))
     if not ctx.thorough:
-        pairs = [pr for pr in pairs if rnd.random() < (0.3 if pr[0]['fam'] != pr[1]['fam'] else 0.2)]
+        pairs = [pr for pr in pairs if rnd.random() < (0.12 if pr[0]['fam'] != pr[1]['fam'] else 0.2)]
     for combo in pairs:
         add(list(combo), pp, 'plain')
     for base, fam in ((PLAIN4, 4), (PLAIN6, 6)):
         tv = block_values(base, 2, fam)
         tp = block_probes(base, 2) + [PLAIN6 if fam == 4 else PLAIN4]
         for combo in itertools.product(tv, repeat=3):
-            if ctx.thorough or rnd.random() < 0.12:
+            if ctx.thorough or rnd.random() < 0.08:
                 add(list(combo), tp, 'plain')
     # the family keywords with and without ordinary values
     for g in ('all', 'ipv4', 'ipv6'):
@@ -369,8 +369,8 @@ def run(ctx):
                        '2-address blocks at ::, 0.0.0.0, 255.255.255.254, ffff:..:fffe and ::/0, every ordered list of <= 2. Random: seeded lists of 8..%d '
                        'values (v4 /8../32, v6 /32../128, dotted netmask spelling in a third of the lists) with planted duplicates, nested, adjacent, partially '
                        'overlapping and enclosing relatives, probed at every set edge +-1 and at random addresses of both families. A case (= list) is distinct by '
-                       'its token list; evaluations = (list, address) pairs.' % ('all' if ctx.thorough else 'a seeded quarter of the',
-                                                                                  'all' if ctx.thorough else 'a seeded eighth of the', 100 if ctx.thorough else 50))
+                       'its token list; evaluations = (list, address) pairs.' % ('all' if ctx.thorough else 'a seeded sixth of the',
+                                                                                  'all' if ctx.thorough else 'a seeded twelfth of the', 100 if ctx.thorough else 50))
     ctx.assumptions += ['the legacy spellings 0/0, 0.0.0.0/0, 0.0.0.0/0.0.0.0, 0.0.0.0-255.255.255.255, 0.0.0.0-0.0.0.0/0 (documented aliases of "all") and host names are not configured',
                         'an IPv4 probe inside an IPv6 network that contains its IPv4-mapped form (only ::/0 here) may be answered either way (IpAcl!AnswerOk)',
                         'Ip::EnableIpv6 is set as on a dual-stack host; the driver reports the 16 address bytes of every probe as ACLIP::match received it and TLC decides on those',
